@@ -80,7 +80,20 @@ def check_case(spec, ops, which, mo, rnd):
             fmt = rnd.choice(['json', 'yml', 'yaml'])
             path = os.path.join(d, 'old.' + fmt)
             from maltoolbox.file_utils import save_dict_to_file
-            save_dict_to_file(path, emit_old(json.load(open(native_path)), rnd.random() < 0.5))
+            doc = json.load(open(native_path))
+            if rnd.random() < 0.5 and len(doc['assets']) >= 2:
+                # a hand-edited file: assets listed in another order, and (sometimes) two assets with the same name —
+                # both loaders resolve the clash in the order of the file.  The equivalent native file is edited alike.
+                items = list(doc['assets'].items()); rnd.shuffle(items)
+                if rnd.random() < 0.6:
+                    (k1, v1), (k2, v2) = items[0], items[1]
+                    if isinstance(v1, dict) and isinstance(v2, dict): v2['name'] = v1['name']
+                doc['assets'] = dict(items)
+                edited = os.path.join(d, 'native_edited.' + fmt)       # same file format: PyYAML lists keys sorted, JSON as given
+                save_dict_to_file(edited, doc)
+                ref = Model.load_from_file(edited, im.fac)
+                mo = None                          # the Lean side computes the document from the history, not from the edited file
+            save_dict_to_file(path, emit_old(doc, rnd.random() < 0.5))
             got = updater.load_model_from_older_version(path, im.fac, '0.0.39')
             a, b = view(got, False), view(ref, False)
         else:
@@ -122,7 +135,7 @@ def run(seed, tier, lean) -> Result:
     cases = []
     for i in range(n):
         r = random.Random(rnd.getrandbits(48))
-        spec = LangGen(r, knobs={'dup_assoc_names': 0.4}).gen()
+        spec = LangGen(r, knobs={'dup_assoc_names': 0.4, 'reuse_fields': 0.5}).gen()
         ops = Gen(r, spec, WEIGHTS, explicit_attacker_ids=False, extras=False).gen(r.randint(4, 30))[:-1]
         cases.append((spec, ops, 'old' if i % 2 else 'scad', r))
     model = run_driver([{'op': 'legacy', 'case': i, 'lang': lang_payload(s), 'ops': o, 'which': w} for i, (s, o, w, r) in enumerate(cases)]) if lean['build_ok'] else None
